@@ -36,7 +36,7 @@ def plan(tier):
     return {'stages': [('shard', 16)], 'timeout_s': 3000}
 
 
-DIALECTS = [(',', 'quoted', 'utf-8'), (',', 'quoted', 'utf-8'), (';', 'quoted', 'utf-8'), ('\t', 'simple', 'utf-8'), ('|', 'simple', 'latin-1'), (',', 'quoted_rfc', 'utf-8'), (' ', 'whitespace', 'utf-8'), ('::', 'quoted', 'utf-8')]
+DIALECTS = [(',', 'quoted', 'utf-8'), (',', 'quoted', 'utf-8'), (';', 'quoted', 'utf-8'), ('\t', 'simple', 'utf-8'), ('|', 'simple', 'latin-1'), (',', 'quoted_rfc', 'utf-8'), (' ', 'whitespace', 'utf-8'), ('::', 'quoted', 'utf-8'), ('§', 'quoted', 'utf-8'), ('→', 'simple', 'utf-8'), ('\t', 'simple', 'utf-8'), ('#', 'quoted', 'utf-8')]
 
 
 def cell_ok(c, dialect):
@@ -174,6 +174,8 @@ def check_scenario(sc, scratch, stats=None):
     results['query-objects'] = ('error', r2['error']['cls']) if r2['error'] else (norm_table(r2['out']), r2['header'])
     # files
     dlm, policy, enc = sc.get('dialect') or [',', 'quoted', 'utf-8']
+    if enc == 'latin-1' and not text.isascii():
+        dlm, policy, enc = ',', 'quoted', 'utf-8'     # the CSV front-end rejects non-ASCII query text with latin-1 by design
     default_dialect = (dlm, policy, enc) == (',', 'quoted', 'utf-8')
     src, jn = os.path.join(scratch, 'c13_in.csv'), os.path.join(scratch, 'c13_join.csv')
     with open(src, 'w', encoding=enc, newline='') as f:
@@ -212,7 +214,10 @@ def check_scenario(sc, scratch, stats=None):
     for name, extra, stdin_data, odlm, opol in cli_runs:
         if os.path.exists(dst):
             os.remove(dst)
-        rc, out, err = cli(['--delim', dlm, '--policy', policy, '--encoding', enc, '--with-headers', '--query', ftext] + extra, scratch, stdin_data)
+        cli_dlm = dlm
+        if dlm == '\t':
+            cli_dlm = ['\t', 'TAB', '\\t'][len(text) % 3]      # the documented spellings of a tab on the command line
+        rc, out, err = cli(['--delim', cli_dlm, '--policy', policy, '--encoding', enc, '--with-headers', '--query', ftext] + extra, scratch, stdin_data)
         out = out.decode(enc, errors='replace')
         ctx = {'query': ftext, 'entry': name, 'exit': rc, 'stderr': err[-400:], 'stdout': out[:300]}
         if lib_err is None:
